@@ -55,7 +55,7 @@ def cfg_term(c):
     return '(%s, %s, %d%%nat, %s)' % (coq_list(['T_' + n for n in subs]), zlit(bs), nl, zlit(ps))
 
 
-def op_term(op, new, pre_state, effs=(), cfgs=()):
+def op_term(op, new, pre_state, effs=(), cfgs=(), skipped=False):
     k = op[0]
     if k in ('remove', 'add'):
         if list(effs) == ['EInapplicable']:
@@ -63,6 +63,8 @@ def op_term(op, new, pre_state, effs=(), cfgs=()):
         if k == 'remove':
             return '(GRemove %d %s)' % (op[1], zlit((list(new) + [0])[0]))
         return '(GAdd %s %s)' % (cfg_term(cfgs[-1]), zlit((list(new) + [0])[0]))
+    if skipped:
+        return '(GRemove 999 0)'                # operation on a removed pool: nothing happens
     return '(GOp %s)' % wop_term(op, new, pre_state)
 
 
@@ -81,8 +83,12 @@ def wop_term(op, new, pre_state):
         return '(WRunning %d %d %s)' % (op[1], op[2], zlit(new[0]))
     if k == 'stop':
         return '(WStop %d %d %s)' % (op[1], op[2], zlit(new[0]))
+    if k == 'stopfail':
+        return '(WStopFail %d %d %s %s)' % (op[1], op[2], zlit(new[0]), zlit(new[1]))
     if k == 'finish':
-        if pre_state == 'stopping':
+        if pre_state == 'unknown':
+            e1, e2 = 0, 0
+        elif pre_state == 'stopping':
             e1, e2 = new[0], 0
         elif pre_state == 'starting':
             e1, e2 = new[0], new[1]
@@ -244,11 +250,12 @@ def run_history(cfgs, ops, hk, gserial, maxdig):
         pre_state = None
         if op[0] == 'finish' and op[1] < len(w.pools) and op[2] < len(w.pools[op[1]].procs):
             p = w.pools[op[1]].procs[op[2]]
-            pre_state = 'stopping' if p.killing else ('starting' if p.state == ProcessStates.STARTING else 'running')
+            pre_state = 'unknown' if p.state == ProcessStates.UNKNOWN else \
+                ('stopping' if p.killing else ('starting' if p.state == ProcessStates.STARTING else 'running'))
         v0 = w.next_vid
         effs = w.apply(op)
         new = list(range(v0, w.next_vid))
-        opterms.append(op_term(op, new, pre_state, effs, cfgs))
+        opterms.append(op_term(op, new, pre_state, effs, cfgs, w.skipped))
         exp.append('(%s, %s)' % (w.obs(), coq_list(effs)))
         post = w.raw()
         kinds.append((op[0], tuple(e.split()[0] for e in effs)))
@@ -335,13 +342,14 @@ def _run(chk, wd, proved):
         alpha.append(['feed', pi, 0, b'RESULT 4\nFAILREADY\n'])
     alpha.append(['feed', 0, 0, b'garbage'])
     alpha.append(['finish', 0, 0, b'', B])
+    alpha.append(['stopfail', 0, 0])
     alpha.append(['dispatch', 0, [[['again'], ['again']]]])
     alpha.append(['dispatch', 0, [[['err'], ['room', BIG]], [['room', BIG], ['err']]]])   # write error: logged, event kept
     depth = 3
     for cfgs in grid:
         setup = ready_setup(cfgs)
         for seq in itertools.product(alpha, repeat=depth):
-            if quick and rng.random() < 0.945:
+            if quick and rng.random() < 0.96:
                 continue
             if not quick and (cfgs[0][1] in (0, 3) and rng.random() < 0.7 or rng.random() < 0.5):
                 continue
@@ -386,6 +394,8 @@ def _run(chk, wd, proved):
             'running': ready_setup(cfgs),
             'busy': ready_setup(cfgs) + [['emit', 'Tick5Event'], ['transition', 0, []]],
             'stopping': ready_setup(cfgs) + [['stop', 0, 0]],
+            'unknown-holding-event': ready_setup(cfgs) + [['emit', 'Tick5Event'], ['transition', 0, []]] +
+                                     [['stopfail', 0, i] for i in range(nl0)],
             'one-exited': ready_setup(cfgs) + finish_all(0, 1),
             'all-exited': ready_setup(cfgs) + finish_all(0, nl0),
             'stopped': ready_setup(cfgs) + [['stop', 0, i] for i in range(nl0)] + finish_all(0, nl0),
@@ -449,12 +459,14 @@ def _run(chk, wd, proved):
                     ops.append(['running', pi, i])
                 if rng.random() < 0.8:
                     ops.append(['feed', pi, i, b'READY\n'])
-            elif r < 0.90:
+            elif r < 0.89:
                 ops.append(['stop', pi, i])
+            elif r < 0.905:
+                ops.append(['stopfail', pi, i])     # the signal cannot be sent: process state UNKNOWN
             else:
                 ops.append(['finish', pi, i, rng.choice([b'', b'', b'RESULT 2\nOK', b'junk']), rng.choice([B, B, ['epipe'], ['err']])])
         return ops
-    nrand = 700 if quick else 8000
+    nrand = 500 if quick else 8000
     for _ in range(nrand):
         cfgs = rand_cfgs()
         add(cfgs, rand_ops(cfgs, rng.randrange(5, 22)), hk=rng.choice([0, 0, 1]), tag='rand')
@@ -521,11 +533,11 @@ def _run(chk, wd, proved):
     cov['distinct_nontrivial'] = len(distinct)
     cov['exhaustive'] = False
     cov['rule'] = ('%d histories: %d from the exhaustive part (every sequence of %d operations over %d operation kinds after a '
-                   'READY setup plus two emitted events, on %d two-pool configurations; quick tier samples 7%% of them, thorough 50%% of '
+                   'READY setup plus two emitted events, on %d two-pool configurations; quick tier samples 4%% of them, thorough 50%% of '
                    'buffer sizes 1-2 and 15%% of 0 and 3; every configuration once with listeners of different pools sharing their '
                    'priority and once sharing their process names), %d random '
                    'histories of 5-21 operations on 1-3 pools (12 subscription lists incl. type+supertype, duplicates, empty; '
-                   'buffer sizes 0-4; 1-3 listeners; equal and different priorities), 40+ histories starting just below maxint; every (type, supertype) pair of the hierarchy configured in both orders; %d process-group histories (removal refused / accepted in 8 pool states, re-adding under the same name) through the real Supervisor.remove_process_group/add_process_group, and such operations in the random stream; '
+                   'buffer sizes 0-4; 1-3 listeners; equal and different priorities), 40+ histories starting just below maxint; every (type, supertype) pair of the hierarchy configured in both orders; %d process-group histories (removal refused / accepted in 9 pool states, re-adding under the same name) through the real Supervisor.remove_process_group/add_process_group, and such operations in the random stream; '
                    'distinct = distinct (operation kind, effect kinds) combinations observed'
                    % (len(cases), n_exh, depth, len(alpha), len(grid), nrand, n_groups))
     cov['samples'] = [meta[0], meta[n_exh + 1] if len(meta) > n_exh + 1 else meta[-1], meta[-1]]
